@@ -1,0 +1,106 @@
+//go:build verif
+
+package server
+
+import (
+	"sort"
+	"sync/atomic"
+
+	"github.com/resgateio/resgate/server/rescache"
+)
+
+// Read-only snapshots of the connection state for the verification harness (build tag verif).
+
+// VerifSubSnap is the abstract state of one Subscription.
+type VerifSubSnap struct {
+	RID          string
+	State        int
+	Direct       int
+	Indirect     int
+	IndirectSent int
+	QueueFlag    int
+	Flags        int
+	Version      uint
+	EventQueue   int
+	HasAccess    bool
+	AccessCbs    int
+	ReadyCbs     int
+	Refs         map[string]int
+	HasRes       bool
+	Err          string
+}
+
+// VerifConnSnap is the abstract state of one connection.
+type VerifConnSnap struct {
+	CID       string
+	Busy      bool
+	Disposing bool
+	Token     string
+	TID       string
+	Protocol  int
+	Subs      []VerifSubSnap
+}
+
+var verifFramesIn int64
+
+func verifFrameIn() { atomic.AddInt64(&verifFramesIn, 1) }
+
+// VerifFramesIn returns the number of client frames read from sockets so far (process wide).
+func VerifFramesIn() int64 { return atomic.LoadInt64(&verifFramesIn) }
+
+// VerifCache exposes the cache.
+func (s *Service) VerifCache() *rescache.Cache { return s.cache }
+
+// VerifSnapshot returns the abstract state of every connection, sorted by cid. A connection
+// whose worker has queued items is reported as Busy without details.
+func (s *Service) VerifSnapshot() []VerifConnSnap {
+	s.mu.Lock()
+	conns := make([]*wsConn, 0, len(s.conns))
+	for _, c := range s.conns {
+		conns = append(conns, c)
+	}
+	s.mu.Unlock()
+	out := make([]VerifConnSnap, 0, len(conns))
+	for _, c := range conns {
+		c.mu.Lock()
+		cs := VerifConnSnap{CID: c.cid, Disposing: c.disposing, Protocol: c.protocolVer}
+		if len(c.queue) > 0 {
+			cs.Busy = true
+			c.mu.Unlock()
+			out = append(out, cs)
+			continue
+		}
+		cs.Token = string(c.token)
+		cs.TID = c.tid
+		for rid, sub := range c.subs {
+			ss := VerifSubSnap{
+				RID:          rid,
+				State:        int(sub.state),
+				Direct:       sub.direct,
+				Indirect:     sub.indirect,
+				IndirectSent: sub.indirectsent,
+				QueueFlag:    int(sub.queueFlag),
+				Flags:        int(sub.flags),
+				Version:      sub.version,
+				EventQueue:   len(sub.eventQueue),
+				HasAccess:    sub.access != nil,
+				AccessCbs:    len(sub.accessCallbacks),
+				ReadyCbs:     len(sub.readyCallbacks),
+				HasRes:       sub.resourceSub != nil,
+				Refs:         map[string]int{},
+			}
+			for r, ref := range sub.refs {
+				ss.Refs[r] = ref.count
+			}
+			if sub.err != nil {
+				ss.Err = sub.err.Error()
+			}
+			cs.Subs = append(cs.Subs, ss)
+		}
+		c.mu.Unlock()
+		sort.Slice(cs.Subs, func(i, j int) bool { return cs.Subs[i].RID < cs.Subs[j].RID })
+		out = append(out, cs)
+	}
+	sort.Slice(out, func(i, j int) bool { return out[i].CID < out[j].CID })
+	return out
+}
